@@ -333,6 +333,16 @@ func (c *conn) doSelect(x *ast.SelectStmt, args []Value) (*result, error) {
 		flds = append(flds, fld{col: -1, expr: f.Expr, name: fieldName(f)})
 	}
 
+	for _, f := range flds {
+		if f.col < 0 {
+			if err := e.resolveColumns(f.expr); err != nil {
+				return nil, err
+			}
+		}
+	}
+	if err := e.resolveColumns(append([]ast.ExprNode{x.Where}, byItemExprs(x.OrderBy)...)...); err != nil {
+		return nil, err
+	}
 	locking := x.LockInfo != nil && x.LockInfo.LockType != ast.SelectLockNone
 	run := func(tx *txState) error {
 		var rows []*row
@@ -639,6 +649,22 @@ func (c *conn) doInsert(x *ast.InsertStmt, args []Value) (*result, error) {
 	}
 	res := &result{}
 	e := &env{c: c, srv: s, args: args, t: t}
+	for rn, list := range lists {
+		if len(list) != len(cols) && !(len(list) == 0 && len(x.Columns) == 0) {
+			return nil, myErr(ErWrongValueCount, "Column count doesn't match value count at row %d", rn+1)
+		}
+		if err := e.resolveColumns(list...); err != nil {
+			return nil, err
+		}
+	}
+	for _, a := range x.OnDuplicate {
+		if _, ok := t.col(a.Column.Name.L); !ok {
+			return nil, myErr(ErBadField, "Unknown column '%s' in 'field list'", a.Column.Name.O)
+		}
+		if err := e.resolveColumns(a.Expr); err != nil {
+			return nil, err
+		}
+	}
 	err = c.stmtTx(func(tx *txState) error {
 		for rn, list := range lists {
 			if len(list) != len(cols) {
@@ -898,6 +924,9 @@ func (c *conn) updateRow(tx *txState, t *Table, old *row, list []*ast.Assignment
 // ---------------------------------------------------------------- UPDATE / DELETE
 
 func (c *conn) selectForWrite(tx *txState, t *Table, e *env, where ast.ExprNode, order *ast.OrderByClause, limit *ast.Limit) ([]*row, error) {
+	if err := e.resolveColumns(append([]ast.ExprNode{where}, byItemExprs(order)...)...); err != nil {
+		return nil, err
+	}
 	var sel []*row
 	for _, r := range c.srv.view(tx, t) {
 		e.row = r.vals
@@ -945,6 +974,11 @@ func (c *conn) doUpdate(x *ast.UpdateStmt, args []Value) (*result, error) {
 	for _, a := range x.List {
 		if _, ok := t.col(a.Column.Name.L); !ok {
 			return nil, myErr(ErBadField, "Unknown column '%s' in 'field list'", a.Column.Name.O)
+		}
+	}
+	for _, a := range x.List {
+		if err := e.resolveColumns(a.Expr); err != nil {
+			return nil, err
 		}
 	}
 	res := &result{}
